@@ -30,6 +30,18 @@ fn compile_one_of_int__membership_n2() {
     let lo: [i64; 2] = kani::any();
     let hi: [i64; 2] = kani::any();
     kani::assume(lo[0] <= hi[0] && lo[1] <= hi[1]);
+    let want = (lo[0] <= x && x <= hi[0]) || (lo[1] <= x && x <= hi[1]);
+    if cfg!(test) {
+        replay_check(
+            Type::Int,
+            true,
+            || ComparisonOpExpr::OneOf(RhsValues::Int(vec![IntRange::from(lo[0]..=hi[0]), IntRange::from(lo[1]..=hi[1])])),
+            LhsValue::Int(x),
+            want,
+            false,
+        );
+        return;
+    }
     let values = RhsValues::Int(vec![IntRange::from(lo[0]..=hi[0]), IntRange::from(lo[1]..=hi[1])]);
     let compiled = extracted::arm_one_of(field_lhs(&scheme, 0), &mut NoCompiler, kani::any(), values);
     std::mem::forget(compiled);
@@ -51,6 +63,10 @@ fn compile_one_of_int__membership_n2() {
 fn compile_one_of_int__empty_list_is_false() {
     let x: i64 = kani::any();
     let (scheme, _ctx) = setup(Type::Int, LhsValue::Int(x));
+    if cfg!(test) {
+        replay_check(Type::Int, true, || ComparisonOpExpr::OneOf(RhsValues::Int(Vec::new())), LhsValue::Int(x), false, false);
+        return;
+    }
     let compiled = extracted::arm_one_of(field_lhs(&scheme, 0), &mut NoCompiler, kani::any(), RhsValues::Int(Vec::new()));
     std::mem::forget(compiled);
     unsafe {
@@ -81,6 +97,17 @@ fn one_of_ip_body(x_is4: bool, item_is4: bool) {
     } else {
         IpRange::Explicit(ExplicitIpRange::V6(Ipv6Addr::from(lo6)..=Ipv6Addr::from(hi6)))
     };
+    if cfg!(test) {
+        let want = if x_is4 != item_is4 {
+            false
+        } else if x_is4 {
+            lo4 <= x4 && x4 <= hi4
+        } else {
+            lo6 <= x6 && x6 <= hi6
+        };
+        replay_check(Type::Ip, true, || ComparisonOpExpr::OneOf(RhsValues::Ip(vec![item.clone()])), LhsValue::Ip(x), want, false);
+        return;
+    }
     let compiled = extracted::arm_one_of(field_lhs(&scheme, 0), &mut NoCompiler, kani::any(), RhsValues::Ip(vec![item]));
     std::mem::forget(compiled);
     let want = if x_is4 != item_is4 {
